@@ -446,4 +446,27 @@ example :
     varianceVec ⟨2, 2, [(0, 1, 1)]⟩ [0, 1] = 0 := by
   refine ⟨by decide +kernel, by decide +kernel, by decide +kernel⟩
 
+/-! ### `is_hermitian(sparse matrix)` and the routine chosen by `sparse_eigenspectrum` -/
+
+/-- **`is_hermitian_sparse_sound`**: for a tolerance `> 0`, `is_hermitian(M)` on a sparse matrix answers
+`True` exactly when EVERY entry of `M - M†` (diagonal included, both triangles) is smaller than the
+tolerance (`|d|² < tol²`); entries at positions stored neither in `M` nor in `M†` are zero. -/
+theorem is_hermitian_sparse_sound (tol : Rat) (htol : 0 < tol) (M : Mat) :
+    isHermitianMat tol M = true ↔ ∀ r c, GQ.normSq (M.get r c - GQ.conj (M.get c r)) < tol * tol :=
+  isHermitianMat_iff tol htol M
+
+/-- in the exact regime (every non-zero entry of `M - M†` is at least the tolerance) the answer is `True`
+iff `M[r,c] = conj M[c,r]` for all `r, c`; in particular `sparse_eigenspectrum` hands the matrix to
+`numpy.linalg.eigvalsh` exactly for the Hermitian matrices and to `numpy.linalg.eigvals` otherwise
+(the eigenvalue routines themselves are LAPACK and stay numeric). -/
+theorem eigenspectrum_route_sound (tol : Rat) (htol : 0 < tol) (M : Mat)
+    (hgap : ∀ r c, M.get r c ≠ GQ.conj (M.get c r) → tol * tol ≤ GQ.normSq (M.get r c - GQ.conj (M.get c r))) :
+    eigenspectrumUsesEigvalsh tol M = true ↔ ∀ r c, M.get r c = GQ.conj (M.get c r) :=
+  isHermitianMat_exact tol htol M hgap
+
+/-- a matrix that is non-Hermitian only through its diagonal (`i·Z`) is rejected -/
+example : isHermitianMat GQ.eqTol ⟨2, 2, [(0, 0, GQ.I), (1, 1, -GQ.I)]⟩ = false ∧
+    isHermitianMat GQ.eqTol ⟨2, 2, [(0, 1, GQ.I), (1, 0, -GQ.I)]⟩ = true := by
+  refine ⟨by decide +kernel, by decide +kernel⟩
+
 end OFV.C06
